@@ -1,6 +1,7 @@
 package rules
 
 import (
+	"bytes"
 	"encoding/json"
 	"fmt"
 	"go/ast"
@@ -823,6 +824,35 @@ func checkExpansionsTypeCheck(c *core.Ctx) error {
 		r.Note("skipped: %s", s)
 	}
 	r.Note("generated _test.go files (example tests) are not part of the loaded expansions")
+	// informational only (C14 is not claimed: this is a comparison of two outputs, not a static verdict): do the
+	// checked-in packages still equal what the generator built from this tree writes for the same directive?
+	same, total := 0, 0
+	for _, fx := range exp.Fixtures {
+		if strings.HasPrefix(fx.Name, "vf_") {
+			continue
+		}
+		checkedIn := filepath.Join(filepath.Dir(fx.Origin), fx.Name)
+		files, _ := filepath.Glob(filepath.Join(fx.Dir, "*_gen.go"))
+		var differ []string
+		for _, f := range files {
+			if strings.HasSuffix(f, "_test.go") {
+				continue
+			}
+			a, err1 := os.ReadFile(f)
+			b, err2 := os.ReadFile(filepath.Join(checkedIn, filepath.Base(f)))
+			if err1 != nil || err2 != nil || !bytes.Equal(a, b) {
+				differ = append(differ, filepath.Base(f))
+			}
+		}
+		total++
+		if len(differ) == 0 {
+			same++
+		} else {
+			sort.Strings(differ)
+			r.Note("informational (C14, not claimed): checked-in package %s differs from what the current generator writes in %v — rerun go generate", fx.Name, differ)
+		}
+	}
+	r.Note("informational (C14, not claimed): %d of %d checked-in packages are byte-identical to the expansion of their go:generate directive", same, total)
 	checkFeatureMatrix(c)
 	return nil
 }
